@@ -370,3 +370,44 @@ Theorem search_node_abs (s : fsys) (v : view) (p : str) (slm : slmode) (qs : lis
 Proof.
   intros Hos Ha Hg. unfold search_node. rewrite Hos, Ha, abs_abs_path by exact Hg. reflexivity.
 Qed.
+
+(* the components a view resolves the path string [p] to: for an absolute string
+   whatever the cwd, for a relative one when the view's cwd is "/cw1/.../cwk" *)
+Lemma view_abs (v : view) (cw : list str) (p : str) :
+  (is_abs Linux p = true \/ (v_cwd v = abs_path cw /\ Forall good_comp cw)) ->
+  abs Linux (v_cwd v) p = abs_path (view_comps cw p) /\ Forall good_comp (view_comps cw p).
+Proof.
+  intros [Ha|(Hc & Hg)].
+  - replace (view_comps cw p) with (view_comps [] p) by (unfold view_comps; rewrite Ha; reflexivity).
+    apply abs_view_comps_abs. exact Ha.
+  - rewrite Hc. apply abs_view_comps. exact Hg.
+Qed.
+
+(* the prefix theorem for EVERY path string given to the view - unclean spellings
+   ("..", ".", "//") and, once the view's cwd is a clean absolute path of the view,
+   relative paths: the view's walk on [p] is the parent's walk on
+   "/d1/.../dk/q1/.../qm" where q1..qm = [view_comps cw p] *)
+Theorem search_prefix_any (s : fsys) (vp vv : view) (slm : slmode) (ds cw : list str) (p : str) :
+  v_os vp = Linux -> v_os vv = Linux -> v_user vv = v_user vp ->
+  Forall good_comp ds ->
+  (is_abs Linux p = true \/ (v_cwd vv = abs_path cw /\ Forall good_comp cw)) ->
+  let qs := view_comps cw p in
+  qs <> [] ->
+  dir_chain (f_heap s) (v_user vp) (v_root vp) ds (v_root vv) ->
+  symfree_walk (f_heap s) (v_root vv) qs ->
+  length ds + length qs < SEARCH_FUEL ->
+  sr_corr ds qs (search_node s vp (abs_path (ds ++ qs)) slm) (search_node s vv p slm).
+Proof.
+  intros Hosp Hosv Hu Hds Hcw qs Hne Hch Hsf Hlen.
+  destruct (view_abs vv cw p Hcw) as (Ha & Hg). fold qs in Ha, Hg.
+  rewrite (search_node_abs s vv p slm qs Hosv Ha Hg). apply search_prefix; auto.
+Qed.
+
+(* ... and confinement in the same terms: the cleaned path has no ".." left to climb with *)
+Theorem view_comps_no_dotdot (v : view) (cw : list str) (p : str) (c : str) :
+  (is_abs Linux p = true \/ (v_cwd v = abs_path cw /\ Forall good_comp cw)) ->
+  In c (view_comps cw p) -> c <> [DOT; DOT] /\ c <> [DOT] /\ c <> [].
+Proof.
+  intros Hcw Hin. destruct (view_abs v cw p Hcw) as (_ & Hg). rewrite Forall_forall in Hg.
+  destruct (Hg c Hin) as (H1 & _ & H3 & H4). auto.
+Qed.
